@@ -147,7 +147,12 @@ def one(case, acc):
                 elif name == 'writelines':
                     for s in call[1]:
                         part += ex.enc_arg(s)
-                    ret = c.writelines(call[1])
+                    # "any iterable object producing strings": a list, a tuple, a one-shot generator or iterator
+                    form = (k + len(call[1])) % 4
+                    arg = call[1] if form == 0 else tuple(call[1]) if form == 1 else \
+                        (x for x in call[1]) if form == 2 else iter(list(call[1]))
+                    acc.count('writelines_' + ['list', 'tuple', 'generator', 'iterator'][form])
+                    ret = c.writelines(arg)
                     exp_ret = None
                 elif name == 'sendcontrol':
                     part = bytes([CTRL[call[1].lower()]])
@@ -312,6 +317,8 @@ def run_shard(spec, acc):
             return
     rng = rng_for(spec['seed'], spec['shard'], 8)
     for i in range(spec['n']):
+        if acc.too_many():
+            break
         tr = ['pty', 'fd', 'socket', 'popen'][i % 4]
         case = gen_case(rng, tr, big_ok=(i % 3 == 0))
         try:
